@@ -2041,12 +2041,46 @@ for _k, _kind in (("core::iter::traits::iterator::Iterator::take", "it_take"), (
                   ("core::iter::traits::iterator::Iterator::skip", "it_skip"), ("core::iter::traits::iterator::Iterator::filter", "it_filter"),
                   ("core::iter::traits::iterator::Iterator::step_by", "it_step_by"), ("core::iter::traits::iterator::Iterator::map_while", "it_map_while")):
     def _h(I, st, callee, target, args, ctx, _kind=_kind):
+        if _kind == "it_step_by" and arith_of(st, args[0]) is not None and isinstance(args[1], VInt):
+            start, step0, w, sg = arith_of(st, args[0])
+            n = st.norm(lin_of(st, args[1]))
+            if n.is_const() and n.c >= 1:
+                return [(st, VParser("it_arith", (VInt(w, sg, lin=start), step0 * n.c), {}))]
         if isinstance(args[0], VParser) and args[0].kind.startswith("it_"):
             st.event("iterator_adaptor", _kind)
             return [(st, VParser(_kind, tuple(args), {}))]
         raise Unanalysable("%s over %r" % (_kind, args[0]))
     EXT[_k] = _h
     CONTRACT[_k] = "total"
+
+
+def arith_of(st, v):
+    """(start Lin, step, width, signed) of an unbounded arithmetic progression: `a..` possibly
+    stepped"""
+    if isinstance(v, VAdt) and v.adt.endswith("ops::range::RangeFrom") and isinstance(v.fields[0], VInt):
+        lo = v.fields[0]
+        return (lin_of(st, lo), 1, lo.w, lo.s)
+    if isinstance(v, VParser) and v.kind == "it_arith":
+        lo = v.args[0]
+        return (lin_of(st, lo), v.args[1], lo.w, lo.s)
+    return None
+
+
+@ext("core::iter::traits::iterator::Iterator::zip")
+def h_zip(I, st, callee, target, args, ctx):
+    """slice iterator zipped with an unbounded arithmetic progression: the zip is as long as the
+    slice and pairs element k with start + step*k (which must fit the integer type for every
+    possible k, else the progression itself would overflow)"""
+    a, b = args
+    for it, other, first in ((a, b, True), (b, a, False)):
+        ar = arith_of(st, other)
+        if type(it) is VIter and ar is not None:
+            start, step, w, sg = ar
+            s0 = st.norm(start)
+            if not s0.is_const() or s0.c < 0 or s0.c + step * (MAXLEN + 1) >= (1 << (w - (1 if sg else 0))):
+                raise Unanalysable("zip with a progression that may overflow")
+            return [(st, VIterZipLin(it.slice, it.pos, s0, step, w, sg, first))]
+    raise Unanalysable("zip of %r and %r" % (a, b))
 
 
 def iter_items(I, st, it, ctx):
@@ -3205,3 +3239,121 @@ def h_try_fold(I, st, callee, target, args, ctx):
     for s2, acc in states:
         out.append((s2, mk_some(acc) if is_opt else mk_ok(acc)))
     return out
+
+
+# ---- further integer helpers ----------------------------------------------------------------------
+
+def _rem_euclid(I, st, callee, target, args, ctx):
+    a, b = args
+    if isinstance(a, VInt) and not a.s:
+        return [(st, I.binop(st, "Rem", a, b))]
+    raise Unanalysable("rem_euclid on a signed value")
+
+
+def _div_euclid(I, st, callee, target, args, ctx):
+    a, b = args
+    if isinstance(a, VInt) and not a.s:
+        return [(st, I.binop(st, "Div", a, b))]
+    raise Unanalysable("div_euclid on a signed value")
+
+
+def _clamp(I, st, callee, target, args, ctx):
+    x, lo, hi = args
+    lx, ll, lh = lin_of(st, x), lin_of(st, lo), lin_of(st, hi)
+    below = decide_le0(st, lx - ll + 1, "clamp")       # x < lo
+    if below:
+        return [(st, lo)]
+    above = decide_le0(st, lh - lx + 1, "clamp")       # x > hi
+    return [(st, hi if above else x)]
+
+
+def _to_bytes(order):
+    def h(I, st, callee, target, args, ctx):
+        v = args[0]
+        if not isinstance(v, VInt):
+            raise Unanalysable("to_bytes of %r" % (v,))
+        n = v.w // 8
+        items = []
+        for i in range(n):
+            sh = 8 * i if order == "le" else 8 * (n - 1 - i)
+            part = I.binop(st, "Shr", v, mk_const(sh, 32, False)) if sh else v
+            items.append(I.cast_to_width(st, part, 8))
+        return [(st, VList(items))]
+    return h
+
+
+def _pow(I, st, callee, target, args, ctx):
+    a, e = args
+    la, le = lin_of(st, a), lin_of(st, e)
+    if la.is_const() and le.is_const():
+        r = la.c ** le.c
+        tr = ty_range(a.w, a.s)
+        okk = tr.contains(r)
+        panic_obligation(I, st, ctx, "Overflow(pow)", okk, None if okk else "pow overflows")
+        return [(st, mk_const(r & ((1 << a.w) - 1), a.w, a.s))]
+    raise Unanalysable("pow of a symbolic value")
+
+
+def _const_bitcount(name):
+    def h(I, st, callee, target, args, ctx):
+        v = args[0]
+        lv = lin_of(st, v)
+        if lv.is_const():
+            c = lv.c & ((1 << v.w) - 1)
+            if name == "count_ones":
+                r = bin(c).count("1")
+            elif name == "count_zeros":
+                r = v.w - bin(c).count("1")
+            else:
+                r = v.w if c == 0 else (c & -c).bit_length() - 1
+            return [(st, mk_const(r, 32, False))]
+        raise Unanalysable("%s of a symbolic value" % name)
+    return h
+
+
+for _t in ("u8", "u16", "u32", "u64", "usize", "i8", "i16", "i32", "i64", "isize"):
+    for _n, _h in (("rem_euclid", _rem_euclid), ("div_euclid", _div_euclid), ("to_le_bytes", _to_bytes("le")), ("to_be_bytes", _to_bytes("be")),
+                   ("pow", _pow), ("count_ones", _const_bitcount("count_ones")), ("count_zeros", _const_bitcount("count_zeros")),
+                   ("trailing_zeros", _const_bitcount("trailing_zeros"))):
+        EXT["core:%s::%s" % (_t, _n)] = _h
+        CONTRACT["core:%s::%s" % (_t, _n)] = "total" if _n != "pow" else "pre"
+EXT["core::cmp::Ord::clamp"] = _clamp
+CONTRACT["core::cmp::Ord::clamp"] = "total"
+
+
+# ---- ninth round ---------------------------------------------------------------------------------
+
+@ext("core:Option<(T, U)>::unzip")
+def h_opt_unzip(I, st, callee, target, args, ctx):
+    out = []
+    for s2, x in _opt_val(I, st, args[0]):
+        if x.variant == 1:
+            t = x.fields[0]
+            if not isinstance(t, VTuple) or len(t.items) != 2:
+                raise Unanalysable("Option::unzip of %r" % (t,))
+            out.append((s2, VTuple((mk_some(t.items[0]), mk_some(t.items[1])))))
+        else:
+            out.append((s2, VTuple((NONE, NONE))))
+    return out
+
+
+def _from_bytes(order, w, s):
+    def h(I, st, callee, target, args, ctx):
+        v = args[0]
+        if not isinstance(v, VList) or len(v.items) != w // 8 or not all(isinstance(x, VInt) and x.w == 8 and not x.s for x in v.items):
+            raise Unanalysable("from_bytes of %r" % (v,))
+        items = list(v.items) if order == "le" else list(reversed(v.items))
+        total = Lin.const(0)
+        for i, x in enumerate(items):
+            total = total + lin_of(st, x).scale(1 << (8 * i))
+        return [(st, I.int_to_int(st, VInt(w, False, lin=total), w, s))]
+    return h
+
+
+for _t, _w, _s in (("u8", 8, False), ("u16", 16, False), ("u32", 32, False), ("u64", 64, False), ("usize", 64, False),
+                   ("i8", 8, True), ("i16", 16, True), ("i32", 32, True), ("i64", 64, True), ("isize", 64, True)):
+    for _o in ("le", "be", "ne"):
+        EXT["core:%s::from_%s_bytes" % (_t, _o)] = _from_bytes("le" if _o == "ne" else _o, _w, _s)
+        CONTRACT["core:%s::from_%s_bytes" % (_t, _o)] = "total"
+CONTRACT["core:Option<(T, U)>::unzip"] = "total"
+CONTRACT["core::iter::traits::iterator::Iterator::zip"] = "total"
